@@ -23,12 +23,12 @@ type FrameEvent struct {
 
 // TapSet parses the byte stream of every mesh link back into frames.
 type TapSet struct {
-	m       *Mesh
-	bufs    map[[2]int][]byte // (link id, dir) -> unparsed bytes
-	OnFrame []func(ev *FrameEvent)
-	Frames  int
+	m          *Mesh
+	bufs       map[[2]int][]byte // (link id, dir) -> unparsed bytes
+	OnFrame    []func(ev *FrameEvent)
+	Frames     int
 	MaxPayload int
-	ByType  map[uint8]int
+	ByType     map[uint8]int
 }
 
 func newTapSet(m *Mesh) *TapSet {
